@@ -9,7 +9,7 @@
 (*              TLC-generated parameter class (DistLawsGen!Emit), with mpmath references    *)
 (*  "summary"   last record: TLC asserts that the executed cases are exactly the products    *)
 (*              OverrideCases and LawCases(tier) (coverage is asserted, not promised)        *)
-EXTENDS ParamRoutingOps, DistLawsOps, Json, IOUtils, TLC
+EXTENDS ParamRoutingAttrOps, DistLawsOps, Json, IOUtils, TLC
 
 TraceLog == ndJsonDeserialize(IOEnv.TRACE_FILE)
 VARIABLE l
@@ -96,6 +96,14 @@ LawsClauses(r) ==
   >>
 
 ----------------------------------------------------------------------------
+(* "attrhist" records: one history of ParamRoutingAttr (family, steps E / A<k> / F) replayed on  *)
+(* one real object; ok = after every E the object's parameters, pdf, cdf, icdf and seeded         *)
+(* draw_sample - all called without explicit parameters - are, bit for bit, those of a fresh       *)
+(* instance constructed with the current parameter values                                          *)
+NEvals(steps) == Cardinality({i \in 1..Len(steps) : steps[i] = "E"})
+AttrHistClauses(r) ==
+  << <<"EvalReadsCurrentAttributes", r.ok /\ r.exc = "" /\ r.nev = 4 * NEvals(r.steps)>> >>
+
 (* coverage *)
 Idx(kind) == {i \in 1..Len(TraceLog) : TraceLog[i].kind = kind}
 IntOverrideSeen == {<<TraceLog[i].fam, TraceLog[i].E, TraceLog[i].method, TraceLog[i].valkind,
@@ -110,12 +118,15 @@ SummaryClauses(r) ==
     <<"OverrideCoverage", OverrideSeen = OverrideCases /\ Cardinality(Idx("override")) = Cardinality(OverrideCases)
                           /\ IntOverrideSeen = IntOverrideCases>>,
     <<"LawsCoverage", LawsSeen = LawCases(r.tier) /\ ExtSeen = ExtremeCases>>,
-    <<"HistoriesReplayed", Cardinality(Idx("hist")) = r.nhist /\ r.nhist > 0>>
+    <<"HistoriesReplayed", Cardinality(Idx("hist")) = r.nhist /\ r.nhist > 0
+                           /\ {<<TraceLog[i].fam, TraceLog[i].steps>> : i \in Idx("attrhist")}
+                                = AttrHistoryCases(4, r.attrfit)>>
   >>
 
 Clauses(r) == CASE r.kind \in {"override", "intoverride"} -> OverrideClauses(r)
                 [] r.kind = "laws" -> LawsClauses(r)
                 [] r.kind = "hist" -> HistClauses(r)
+                [] r.kind = "attrhist" -> AttrHistClauses(r)
                 [] r.kind = "summary" -> SummaryClauses(r)
 
 Verdict(r) == Failing(Clauses(r))
